@@ -107,16 +107,18 @@ Proof.
     rewrite E1, E2. reflexivity.
 Qed.
 
-Lemma fits_T nid p len s : fits k (T nid p len s) = true -> 0 < len /\ (p + len <= k \/ k <= p).
+Lemma fits_T nid p len s : fits k (T nid p len s) = true -> ~ (len = 0 /\ p = k) /\ (p + len <= k \/ k <= p).
 Proof.
-  simpl. intro H. apply andb_true_iff in H as [H1 H2]. apply Nat.ltb_lt in H1. split; [exact H1|].
-  apply orb_true_iff in H2 as [H2|H2]; [right; apply Nat.leb_le, H2 | left; apply Nat.leb_le, H2].
+  simpl. intro H. apply andb_true_iff in H as [H2 H1]. apply negb_true_iff in H1. split.
+  - intros [-> ->]. rewrite !Nat.eqb_refl in H1. discriminate.
+  - apply orb_true_iff in H2 as [H2|H2]; [right; apply Nat.leb_le, H2 | left; apply Nat.leb_le, H2].
 Qed.
 
-Lemma fits_NT nid kids : fits k (NT nid kids) = true -> kids <> [] /\ Forall (fun x => fits k x = true) kids.
+Lemma fits_NT nid kids : fits k (NT nid kids) = true -> (kids <> [] \/ 0 < k) /\ Forall (fun x => fits k x = true) kids.
 Proof.
-  simpl. intro H. apply andb_true_iff in H as [H1 H2]. split; [destruct kids; [discriminate | discriminate]|].
-  apply Forall_forall. rewrite forallb_forall in H2. exact H2.
+  simpl. intro H. apply andb_true_iff in H as [H1 H2]. split.
+  - apply orb_true_iff in H1 as [H1|H1]; [left; destruct kids; discriminate | right; apply Nat.ltb_lt, H1].
+  - apply Forall_forall. rewrite forallb_forall in H2. exact H2.
 Qed.
 
 Lemma tpos_sht : forall t, fits k t = true -> tpos (sht t) = ph (tpos t).
@@ -124,7 +126,9 @@ Proof.
   apply (tree_ind2 (fun t => fits k t = true -> tpos (sht t) = ph (tpos t))).
   - reflexivity.
   - intros nid kids IH Hf. destruct (fits_NT _ _ Hf) as [Hne Hall].
-    destruct kids as [|x kids]; [contradiction|]. simpl. inversion IH; subst. inversion Hall; subst. auto.
+    destruct kids as [|x kids].
+    + destruct Hne as [Hne|Hk]; [contradiction|]. simpl. unfold phi. destruct (Nat.ltb_spec 0 k); [reflexivity | lia].
+    + simpl. inversion IH; subst. inversion Hall; subst. auto.
 Qed.
 
 Lemma tend_sht : forall t, fits k t = true -> tend (sht t) = phe (tend t).
@@ -133,7 +137,7 @@ Proof.
   - intros nid p len s Hf. destruct (fits_T _ _ _ _ Hf) as [Hl Hp]. simpl. unfold phi, phie.
     destruct (Nat.ltb_spec p k), (Nat.leb_spec (p + len) k); lia.
   - intros nid kids IH Hf. destruct (fits_NT _ _ Hf) as [Hne Hall].
-    destruct kids as [|x kids]; [contradiction|]. clear Hne Hf.
+    destruct kids as [|x kids]; [reflexivity|]. clear Hne Hf.
     revert x IH Hall. induction kids as [|y kids IHk]; intros x IH Hall.
     + rewrite tend_single. change (sht (NT nid [x])) with (NT nid [sht x]). rewrite tend_single.
       inversion IH; subst. inversion Hall; subst. auto.
@@ -167,7 +171,7 @@ Proof.
   - intros nid kids IH Hf. destruct (fits_NT _ _ Hf) as [Hne Hall].
     change (sht (NT nid kids)) with (NT nid (map sht kids)). cbn [pmatch].
     destruct (is_base5 (rule_of g nid)); [reflexivity|].
-    destruct kids as [|x rest]; [contradiction|]. cbn [map].
+    destruct kids as [|x rest]; [reflexivity|]. cbn [map].
     inversion IH as [|x0 l0 IHx IHrest]; subst. inversion Hall as [|x1 l1 Hx Hrest]; subst.
     destruct rest as [|y rest].
     + cbn [map]. rewrite (IHx Hx). destruct (pmatch g s0 x); reflexivity.
@@ -274,7 +278,7 @@ Proof.
       * (* = *)
         rewrite get_val_shift. destruct (get_val at_ (c_vals c)) as [av|]; [|reflexivity]. simpl option_map.
         cbv beta iota. rewrite val_truthy_sv, is_vlist_sv. destruct (val_truthy av && negb (is_vlist av))%bool; [reflexivity|].
-        destruct kids as [|x rest]; [contradiction|]. cbn [map].
+        destruct kids as [|x rest]; [reflexivity|]. cbn [map].
         inversion IH; subst. inversion Hall; subst.
         change (Some (shift_cur k n c)) with (stop (Some c)). rewrite (H1 H3 (Some c)).
         destruct (pn x (Some c)) as [[v top1]|e]; [|reflexivity]. simpl.
@@ -303,7 +307,7 @@ Proof.
         simpl. rewrite name_ok_shift, many_ok_shift.
         destruct (name_ok (c_vals c1)); [|reflexivity]. destruct (many_ok (c_meta c1) (c_vals c1)); reflexivity.
       * (* abstract rule *)
-        destruct kids as [|x rest]; [contradiction|].
+        destruct kids as [|x rest]; [reflexivity|].
         destruct rest as [|y rest].
         -- cbn [map]. inversion IH; subst. inversion Hall; subst. apply (H1 H3 top).
         -- change (map sht (x :: y :: rest)) with (sht x :: sht y :: map sht rest).
